@@ -86,7 +86,7 @@ def convddHandler : Handler := fun lhs rhs => do
         let ok := if isInf then isInf64 x0 && signOf 53 11 x0 == se.testBit 15 && (rs.drop 1).all (fun l => isFin64 l)
                   else isNaN64 x0
         return { model := m, specOk := ok, reason := "±inf must become (±inf, finite tail), NaN a NaN",
-                 cls := if isInf then s!"{ty}.from_long_double.inf_tail_nan" else "", tag := s!"{ty}.from_ld/special", trivial := true }
+                 cls := "", tag := s!"{ty}.from_ld/special", trivial := true }
       | some x =>
         -- judged when the source is inside the double range and on the 2^-1074 grid (neither overflow nor underflow of a limb)
         let inRange := absR x < pow2 1024 - pow2 970
@@ -94,7 +94,7 @@ def convddHandler : Handler := fun lhs rhs => do
         if !inRange then
           let ok := isInf64 x0 && signOf 53 11 x0 == se.testBit 15 && (rs.drop 1).all (fun l => isFin64 l)
           return { model := m, specOk := ok, reason := "a magnitude beyond the double range must become ±inf with a finite tail",
-                   cls := s!"{ty}.from_long_double.overflow_tail", tag := s!"{ty}.from_ld/overflow", trivial := true }
+                   cls := "", tag := s!"{ty}.from_ld/overflow", trivial := true }
         else if !grid then
           return { model := m, specOk := rs.all isFin64, reason := "non-finite limb", tag := s!"{ty}.from_ld/below-grid", trivial := true }
         else
@@ -110,24 +110,18 @@ def convddHandler : Handler := fun lhs rhs => do
       let some pv := parseAll prev | throw "prev"
       let some rs := parseAll rhs | throw "result"
       let v := srcInt sz signed w
-      let (p2, p3) := match pv with | [a, b] => (ofBits64 a, ofBits64 b) | _ => (pzero, pzero)
-      let m : String :=
-        if isQ then outQD (if signed then ConvDD.qdFromI64 v p2 p3 else ConvDD.qdFromU64 v.toNat p2 p3)
-        else outDD (ofInt64 b64 v)
+      -- `pv`: the lower limbs the qd target held before the assignment (they must not survive; the model does not read them)
+      let stale := pv.any (fun x => mag64 x != 0)
+      let m : String := if isQ then outQD (ConvDD.qdFromInt v) else outDD (ofInt64 b64 v)
       if rs.length != (if isQ then 4 else 2) then throw "arity"
       let ok := rs.all isFin64 && sumVals rs == (v : Rat)
       let big := v.natAbs ≥ 2 ^ 53
-      -- the regions of the recorded defects, on the inputs alone: the integer is not a double (the head cannot hold it);
-      -- for qd(uint64): the head is rounded UP (the unsigned difference wraps)
+      -- branch tags: the integer is not a double (a second limb is needed); the head is rounded UP (negative remainder)
       let notDouble := !isDoubleVal (v : Rat)
       let roundedUp := F64.rnNat 53 v.natAbs > v.natAbs
-      let cls :=
-        if !isQ then (if notDouble then "dd.from_int64.head_only" else "")
-        else if v ≠ 0 && (pv.any (fun x => mag64 x != 0)) then "qd.from_int.stale_lower_limbs"
-        else if !signed && roundedUp then "qd.from_uint64.unsigned_difference"
-        else ""
       return { model := m, specOk := ok, reason := s!"a 64-bit integer fits the significand: the limbs must sum to {v}",
-               cls := cls, tag := s!"{ty}.fromi/{kind}/{if big then "ge2^53" else "lt2^53"}", trivial := v == 0 }
+               cls := "", tag := s!"{ty}.fromi/{kind}/{if big then "ge2^53" else "lt2^53"}" ++ (if notDouble then (if roundedUp then "/head-up" else "/head-down") else "")
+                                  ++ (if isQ && stale then "/dirty-target" else ""), trivial := v == 0 }
     | "to_f32" | "to_f64" =>
       let some xs := parseAll ins | throw "operand"
       let some [r] := parseAll rhs | throw "result"
@@ -153,18 +147,20 @@ def convddHandler : Handler := fun lhs rhs => do
       let some xs := parseAll xsS | throw "operand"
       let some [r] := parseAll rhs | throw "result"
       if xs.length != (if isQ then 4 else 2) then throw "arity"
-      let pat := if isQ then ConvDD.qdToInt sz (mkQD xs) else ConvDD.ddToInt sz (mkDD (xs.getD 0 0) (xs.getD 1 0))
+      let pat := if isQ then ConvDD.qdToInt sz signed (mkQD xs) else ConvDD.ddToInt sz signed (mkDD (xs.getD 0 0) (xs.getD 1 0))
       let X := sumVals xs
       let fin := xs.all isFin64
       let t := truncZ X
       let fits := ConvFixpntSpec.fitsInt sz signed t
       let guarded := fin && qdNormalised xs && fits
       let ok := !guarded || hex16 r == outInt sz signed (ofSigned sz t)
-      let cls :=
-        if !signed && sz == 64 && t ≥ (2 ^ 63 : Int) then s!"{ty}.to_uint64.via_int64"
-        else if (xs.drop 1).any (fun x => mag64 x != 0) then s!"{ty}.to_int64.limbwise_truncation" else ""
-      return { model := outInt sz signed pat, specOk := ok, reason := s!"truncation toward zero gives {t}", cls := cls,
-               tag := s!"{ty}.toi/{kind}" ++ (if guarded then "" else "/unguarded"), trivial := !guarded }
+      -- branch tags: which limb is the first with a fraction, whether its sign opposes the value's, unsigned reads from 2^63 on
+      let firstFrac := (List.range xs.length).find? (fun i => !isIntegral b64 (ofBits64 (xs.getD i 0)))
+      let fracTag := match firstFrac with
+        | some i => s!"/frac@{i}" ++ (if i > 0 && signOf 53 11 (xs.getD i 0) != signOf 53 11 (xs.getD 0 0) then "-opposite" else "")
+        | none => "/integer"
+      return { model := outInt sz signed pat, specOk := ok, reason := s!"truncation toward zero gives {t}", cls := "",
+               tag := s!"{ty}.toi/{kind}" ++ (if guarded then fracTag ++ (if !signed && t ≥ (2 ^ 63 : Int) then "/ge2^63" else "") else "/unguarded"), trivial := !guarded }
     | _ => throw s!"unknown op {op}"
   | _ => throw "arity"
 
